@@ -131,8 +131,28 @@ def run_resolver(job, tmp):
     return {"results": out}
 
 
+def run_call(job, tmp):
+    """{"kind": "call", "target": "pkg.mod:attr.path", "args": [...], "kwargs": {...}} -> JSON-able result of the real function"""
+    import importlib
+    mod, _, path = job["target"].partition(":")
+    obj = importlib.import_module(mod)
+    for part in path.split("."):
+        obj = getattr(obj, part)
+    try:
+        r = obj(*job.get("args", []), **job.get("kwargs", {}))
+        try:
+            json.dumps(r)
+        except TypeError:
+            r = repr(r)
+        return {"result": r}
+    except Exception as e:
+        return {"error": f"{type(e).__name__}: {e}"}
+
+
 def run_one(job, tmp):
     k = job.get("kind")
+    if k == "call":
+        return run_call(job, tmp)
     if k == "resolver":
         return run_resolver(job, tmp)
     if k == "mop":
